@@ -5,3 +5,4 @@ import Dagrt.Props.C04
 import Dagrt.Props.C05
 import Dagrt.Props.C08
 import Dagrt.Props.C02
+import Dagrt.Props.C20
